@@ -1,0 +1,9 @@
+//go:build verif
+
+package router
+
+// Machine-checked contracts for this package (comment-only; excluded from normal builds).
+
+//@ property C11 C12
+//@ type router
+//@   guarded_by mu: registry
